@@ -158,11 +158,12 @@ func stackNote(i *interpreter) string {
 	if n == 0 {
 		return ""
 	}
-	k := n - 8
-	if k < 0 {
-		k = 0
+	// innermost first, module path shortened
+	var parts []string
+	for k := n - 1; k >= 0 && len(parts) < 8; k-- {
+		parts = append(parts, strings.ReplaceAll(i.panicSnap[k], "github.com/hyperjumptech/grule-rule-engine/", ""))
 	}
-	return " [in " + strings.Join(i.panicSnap[k:], " > ") + "]"
+	return " [in " + strings.Join(parts, " < ") + "]"
 }
 
 // isInternal reports whether a Go run-time error raised while interpreting is the
